@@ -12,28 +12,57 @@ let form st ?(allow64 = false) n =
   (* favour the canonical form *)
   if rnd_int st 4 <> 0 then List.hd cands else rnd_pick st cands
 
-(* a tiny LZF compressor: literal runs, and back-references for runs of one repeated byte *)
+(* a small LZF compressor: literal runs, and back-references (distance 1, 2, 3 or 8) wherever the next >= 3 bytes repeat what was
+   written that far back - for runs ("aaaa", blanks) and short periodic patterns ("abab") the reference overlaps its own output
+   (distance < length), the case a memmove-style copy gets wrong *)
 let lzf_compress (s : string) : string =
   let b = Buffer.create (String.length s + 8) in
   let n = String.length s in
-  let all_same = n >= 4 && String.for_all (fun c -> c = s.[0]) s in
-  if all_same then begin
-    Buffer.add_char b '\000'; Buffer.add_char b s.[0];
-    let left = ref (n - 1) in
-    while !left > 0 do
-      let k = min !left 264 in
-      if k >= 9 then begin Buffer.add_char b (Char.chr (7 lsl 5)); Buffer.add_char b (Char.chr (k - 9)); Buffer.add_char b '\000'; left := !left - k end
-      else if k >= 3 then begin Buffer.add_char b (Char.chr ((k - 2) lsl 5)); Buffer.add_char b '\000'; left := !left - k end
-      else begin Buffer.add_char b (Char.chr (k - 1)); Buffer.add_string b (String.make k s.[0]); left := !left - k end
-    done
-  end else begin
+  let lit = Buffer.create 32 in
+  let flush () =
+    let l = Buffer.contents lit in
+    let k = String.length l in
     let i = ref 0 in
-    while !i < n do
-      let k = min 32 (n - !i) in
-      Buffer.add_char b (Char.chr (k - 1)); Buffer.add_string b (String.sub s !i k); i := !i + k
-    done
-  end;
+    while !i < k do
+      let m = min 32 (k - !i) in
+      Buffer.add_char b (Char.chr (m - 1)); Buffer.add_string b (String.sub l !i m); i := !i + m
+    done;
+    Buffer.clear lit in
+  let i = ref 0 in
+  while !i < n do
+    let best = ref (0, 0) in
+    List.iter (fun d ->
+      if !i >= d then begin
+        let l = ref 0 in
+        while !i + !l < n && !l < 264 && s.[!i + !l] = s.[!i + !l - d] do incr l done;
+        if !l > fst !best then best := (!l, d)
+      end) [ 1; 2; 3; 8 ];
+    let (l, d) = !best in
+    if l >= 3 then begin
+      flush ();
+      let off = d - 1 and lf = l - 2 in
+      if lf < 7 then begin Buffer.add_char b (Char.chr ((lf lsl 5) lor (off lsr 8))); Buffer.add_char b (Char.chr (off land 255)) end
+      else begin Buffer.add_char b (Char.chr ((7 lsl 5) lor (off lsr 8))); Buffer.add_char b (Char.chr (lf - 7)); Buffer.add_char b (Char.chr (off land 255)) end;
+      i := !i + l
+    end else begin Buffer.add_char lit s.[!i]; incr i end
+  done;
+  flush ();
   Buffer.contents b
+
+(* strings Redis would store compressed: longer than 20 bytes with runs and repetitions *)
+let gen_compressible st =
+  match rnd_int st 5 with
+  | 0 -> "key:" ^ String.make (20 + rnd_int st 40) (Char.chr (97 + rnd_int st 3)) ^ ":" ^ string_of_int (rnd_int st 100)
+  | 1 -> String.concat "" (List.init (8 + rnd_int st 10) (fun _ -> "ab")) ^ rnd_string st (rnd_int st 5)
+  | 2 -> "if x then\n" ^ String.make (8 + rnd_int st 8) ' ' ^ "return 1 end -- " ^ String.make (10 + rnd_int st 300) '-'
+  | 3 -> rnd_string st (1 + rnd_int st 6) ^ String.concat "" (List.init (6 + rnd_int st 6) (fun _ -> "xyz")) ^ String.make (5 + rnd_int st 20) '0'
+  | _ -> String.make (24 + rnd_int st 300) (Char.chr (rnd_int st 256))
+
+let lzf_rstring st (s : string) : rstring =
+  let blob = lzf_compress s in
+  match lzf_decompress (bs blob) (nn (String.length s)) with
+  | Some o when string_of_bytes o = s && String.length blob < String.length s -> SLzf (form st (String.length blob), form st (String.length s), bs blob, nn (String.length s))
+  | _ -> SRaw (form st (String.length s), bs s)
 
 let gen_bytes st =
   match rnd_int st 10 with
@@ -48,7 +77,7 @@ let gen_rstring st : rstring =
   | 1 -> SInt16 (z_of_int (rnd_pick st [ -32768; 32767; 128; -129; rnd_int st 65536 - 32768 ]))
   | 2 -> SInt32 (z_of_int (rnd_pick st [ -2147483648; 2147483647; 32768; -32769; rnd_int st 1000000 ]))
   | 3 ->
-      let s = gen_bytes st in
+      let s = if rnd_bool st then gen_compressible st else gen_bytes st in
       let s = if s = "" then "x" else s in
       let blob = lzf_compress s in
       (match lzf_decompress (bs blob) (nn (String.length s)) with
@@ -57,6 +86,7 @@ let gen_rstring st : rstring =
   | _ -> let s = gen_bytes st in SRaw (form st (String.length s), bs s)
 
 let gen_key st : rstring =
+  if rnd_int st 8 = 0 then lzf_rstring st (gen_compressible st) else
   let s = rnd_pick st [ "k"; "key:" ^ string_of_int (rnd_int st 1000); "{tag}" ^ rnd_string_of st "abc" 3; rnd_string st (1 + rnd_int st 12); string_of_int (rnd_int st 300);
                         string_of_int (rnd_pick st [ -1; -128; -129; -1000; -32768; 32767; 128; -5 - rnd_int st 30000 ]) ] in
   if rnd_int st 3 = 0 then (match int_of_string_opt s with
@@ -117,7 +147,8 @@ let gen_units st ~(nkeys : int) ~(max_elems : int) ~(meta : bool) : unit_ list =
     if rnd_int st 5 <> 0 then add (USelect (form st db, nn db));
     if meta && rnd_bool st then add (UResize (form st 5, form st 1, nn 5, nn 1));
     for _ = 1 to rnd_int st (nkeys + 1) do
-      if meta && rnd_int st 8 = 0 then add (ULua (form st 3, SRaw (L6, bs ("return " ^ string_of_int (rnd_int st 100)))));
+      if meta && rnd_int st 8 = 0 then add (ULua (form st 3, (if rnd_int st 3 = 0 then lzf_rstring st ("return 1 -- " ^ gen_compressible st)
+                                                               else SRaw (L6, bs ("return " ^ string_of_int (rnd_int st 100))))));
       if meta && rnd_int st 8 = 0 then begin
         let id = nn (rnd_pick st [ 0; 99; (1 lsl 40) + 7 ]) in
         let items = List.init (rnd_int st 4) (fun _ -> gen_mod_item st) in
